@@ -167,6 +167,7 @@ type Expect struct {
 	After  *Node    // tree after a successful op (nil for pure reads: unchanged)
 	Data   string   // ReadFile/Reader
 	List   []string // ReadDir: sorted "name/" for dirs, "name" for files
+	Size   int      // Lstat of a file: length of its content
 	Bool   bool     // IsExist/IsFile/IsDir
 	BoolAlt []bool  // acceptable answers (escape paths)
 	Name   string   // Lstat
@@ -269,7 +270,7 @@ func apply(t *Node, root []string, op Op) Expect {
 			if len(rel) == 0 {
 				name = "" // root of the view: name unspecified
 			}
-			return wrap(Expect{Class: MustOK, Name: name, IsDir: node.Dir, Why: "stat of an existing node"}, pesc)
+			return wrap(Expect{Class: MustOK, Name: name, IsDir: node.Dir, Size: len(node.Data), Why: "stat of an existing node"}, pesc)
 		}
 		return Expect{Class: MustFail, Why: "stat of a missing node"}
 	case "ReadFile", "Reader":
